@@ -35,6 +35,12 @@ theorem c_timerGranularity : timerGranularity = 1000000 := by decide
 theorem c_maxByteCount : maxByteCount = 4611686018427387903 := by decide
 theorem c_invalidPN : invalidPN = -1 := by decide
 
+theorem wrapU64_id (n : Nat) (h : n < 2 ^ 64) : wrapU64 n = n := by unfold wrapU64; omega
+theorem i64OfU64_id (n : Nat) (h : n < 2 ^ 63) : i64OfU64 n = (n : Int) := by unfold i64OfU64; split <;> omega
+theorem u64OfI64_id (x : Int) (h0 : 0 ≤ x) (h : x < 2 ^ 64) : u64OfI64 x = x.toNat := by unfold u64OfI64; omega
+theorem wrapI64_id (x : Int) (h1 : -2 ^ 63 ≤ x) (h2 : x < 2 ^ 63) : wrapI64 x = x := by
+  unfold wrapI64 i64OfU64 u64OfI64; split <;> omega
+
 theorem tdiv_nat (a b : Nat) : Int.tdiv (a : Int) (b : Int) = ((a / b : Nat) : Int) := by simp
 
 theorem pacer_timeScaledBandwidth_model_is_source (bw mds ns : Nat) :
@@ -122,44 +128,26 @@ theorem pacer_TimeUntilSend_model_is_source (p : Pacer) (bw : Nat)
   unfold Pacer.timeUntilSend pacer_TimeUntilSend pacer_TimeUntilSend_panics
   rw [c_nsPerSecond, c_minPacingDelay] at *
   by_cases hb : p.budgetAtLastSent ≥ p.mds
-  · have hb' : (p.budgetAtLastSent : Int) ≥ p.mds := by omega
-    simp [hb, hb']
-  · have hb' : ¬ (p.budgetAtLastSent : Int) ≥ p.mds := by omega
-    simp only [hb, hb', if_false]
+  · simp only [hb, if_true]
+    (repeat' split) <;> first | omega | (simp_all <;> omega) | simp_all
+  · simp only [hb, if_false]
     by_cases hz : bw = 0
-    · have hz' : (bw : Int) = 0 := by omega
-      simp [hz, hz']
-    · have hz' : ¬ (bw : Int) = 0 := by omega
-      have hw : wrapU64 (1000000000 * (p.mds - p.budgetAtLastSent)) = 1000000000 * (p.mds - p.budgetAtLastSent) := by
-        unfold wrapU64; omega
-      have e : (1000000000 : Int) * ((p.mds : Int) - (p.budgetAtLastSent : Int)) = ((1000000000 * (p.mds - p.budgetAtLastSent) : Nat) : Int) := by
-        omega
-      simp only [hz, hz', if_false, hw, e, Bool.false_eq_true]
-      generalize 1000000000 * (p.mds - p.budgetAtLastSent) = D at *
-      have q1 : Int.tdiv (D : Int) (bw : Int) = ((D / bw : Nat) : Int) := by simp
-      have q2 : Int.tmod (D : Int) (bw : Int) = ((D % bw : Nat) : Int) := by
-        rw [Int.tmod_eq_emod_of_nonneg (Int.natCast_nonneg _)]; exact Int.ofNat_mod_ofNat D bw
-      rw [q1, q2]
-      clear q1 q2
+    · simp only [hz, if_true]
+      (repeat' split) <;> first | omega | (simp_all <;> omega) | simp_all
+    · simp only [hz, if_false]
+      -- the one non-linear quantity: D = 1e9·(mds - budget), its quotient and remainder by the bandwidth
+      generalize hD : 1000000000 * (p.mds - p.budgetAtLastSent) = D at *
+      have hw : wrapU64 D = D := by unfold wrapU64; omega
+      simp only [hw]
+      clear hw
+      rw [tdiv_cast _ D bw ?_, tmod_cast _ D bw ?_]
+      rotate_left
+      · omega
+      · omega
       generalize D / bw = Q at *
       generalize D % bw = R at *
-      congr 1
-      by_cases hm : R > 0
-      · have hm' : ((R : Nat) : Int) > 0 := by omega
-        have hwu : wrapU64 (Q + 1) = Q + 1 := by unfold wrapU64; omega
-        simp only [hm, hm', if_true, hwu]
-        have hi : i64OfU64 (Q + 1) = ((Q + 1 : Nat) : Int) := by unfold i64OfU64; split <;> omega
-        rw [hi]
-        have hwi : ∀ x : Int, -2 ^ 63 ≤ x → x < 2 ^ 63 → wrapI64 x = x := by
-          intro x a b; unfold wrapI64 i64OfU64 u64OfI64; split <;> omega
-        rw [hwi] <;> omega
-      · have hm' : ¬ ((R : Nat) : Int) > 0 := by omega
-        simp only [hm, hm', if_false]
-        have hi : i64OfU64 Q = ((Q : Nat) : Int) := by unfold i64OfU64; split <;> omega
-        rw [hi]
-        have hwi : ∀ x : Int, -2 ^ 63 ≤ x → x < 2 ^ 63 → wrapI64 x = x := by
-          intro x a b; unfold wrapI64 i64OfU64 u64OfI64; split <;> omega
-        rw [hwi] <;> omega
+      (repeat' split) <;> (try simp (disch := omega) only [wrapU64_id, i64OfU64_id, wrapI64_id]) <;>
+        first | omega | (simp_all <;> omega) | simp_all
 
 /-- `SentPacket(sendTime, size)`: both written fields -/
 theorem pacer_SentPacket_model_is_source (p : Pacer) (bw : Nat) (t : Int) (size : Nat)
@@ -194,16 +182,15 @@ theorem cubicSender_BandwidthEstimate_model_is_source (cwnd : Nat) (srtt : Int) 
   rw [hu]
   generalize S.toNat = n at *
   subst hSn
-  have q : Int.tdiv ((cwnd : Int) * 1000000000) (n : Int) = ((cwnd * 1000000000 / n : Nat) : Int) := by
-    have : ((cwnd : Int) * 1000000000) = ((cwnd * 1000000000 : Nat) : Int) := by omega
-    rw [this, Int.tdiv_eq_ediv_of_nonneg (Int.natCast_nonneg _)]; exact (Int.natCast_ediv _ _).symm
-  rw [q]
+  rw [tdiv_cast _ (cwnd * 1000000000) n ?_]
+  rotate_left
+  · omega
   generalize cwnd * 1000000000 / n = Q at *
   have hq : wrapU64 (Q * 8) = Q * 8 := by unfold wrapU64; omega
   rw [hq]
   have hn : ¬ (n : Int) = 0 := by omega
   have hn' : ¬ n = 0 := by omega
-  simp [hn, hn']
+  simp [hn, hn'] <;> omega
 
 /-- the Reno branch of `maybeIncreaseCwnd`: both written fields and the panic (division by a zero datagram size) -/
 theorem cubicSender_maybeIncreaseCwnd_model_is_source (s : Sender) (prior : Nat) (hn : s.numAcked + 1 < 2 ^ 64) :
